@@ -165,7 +165,7 @@ func hashableType(t reflect.Type) bool {
 
 func (valdec mapDecoder) decodeMap(dec *Decoder, p interface{}) {
 	mp := reflect2.PtrOf(p)
-	count := dec.ReadInt()
+	count := dec.ReadCount()
 	valdec.t.UnsafeSet(mp, valdec.t.UnsafeMakeMap(count))
 	dec.AddReference(p)
 	kp := valdec.kt.UnsafeNew()
